@@ -147,7 +147,8 @@ def findings_of(seq, rows, xrows):
     if seq["crash"] is not None:
         x = [x for x in xrows if x[0] == seq["id"]]
         fname, st = (x[0][2], x[0][3]) if x else ("?", "?")
-        kind = seq["crash"].split(":")[0][:40] if not seq["crash"].startswith("ub:") else "ub"
+        cr, _, where = seq["crash"].partition("@")
+        kind = (cr.split(":")[0][:40] if not cr.startswith("ub:") else "ub") + "@" + where
         out.append(("crash", "api:%s[state=%s]#mem:%s" % (export_name(fname), st, kind),
                     "sanitizer/abort inside %s (state %s): %s" % (export_name(fname), st, seq["crash"]), len(seq["calls"]) - 1))
     return out
